@@ -156,4 +156,11 @@ one of three draws leaves a checkpoint whose live set has NaN rows, and the resu
 theorem signal_during_population_fails_without :
     fullLive 3 (populateResumed false 3 [⟨4, 1⟩, ⟨2, 2⟩, ⟨9, 3⟩] [⟨5, 7⟩, ⟨3, 8⟩, ⟨1, 9⟩] 1) = false := by decide
 
+/-- **Nothing on the way swallows the handler's exit** (table fact, regenerated from every module of the package on every
+run): no `except:` / `except BaseException` / `except SystemExit` / `except KeyboardInterrupt` clause without a bare
+re-raise exists, so the `SystemExit(exit_code)` the handler raises — wherever in the loop, the plots or the training the
+signal arrives — propagates to the interpreter.  (That the process then ends with that code is observed with real signals,
+including one delivered while the periodic plots are drawn.) -/
+theorem no_exit_swallowers : exitSwallowers = [] := by decide
+
 end NessaiVerif.C13
